@@ -248,23 +248,19 @@ let outcome_str (tap : bool) (o : ioutcome) : string =
   | IPanicked s -> "panic site " ^ string_of_int (int_of_n s) ^ " | "
   | INoFuel -> "nofuel | "
 
-(* the model's run for this spend; None = not applicable (from_txdata failed, unknown script) *)
-let model_run (c : case) (s : spend) : string option =
-  let tap = is_tapkind c.kind in
-  let itab = List.filter (fun p -> not (List.mem p s.isign)) s.sigok @ s.isigx in
-  let e = mk_env c s itab in
-  let known = known_keys () in
-  let kp k = List.mem k known in
-  let keyonly (k : bytes) (items : bytes list) = Some (outcome_str tap (interp_pk e k (astack_of_items items))) in
+(* inputs of the model for this spend: (miniscript or None for key-only, key, items); None = not
+   applicable (unknown script) *)
+let model_inputs (c : case) (s : spend) : (ms option * bytes * bytes list) option =
+  let outkey = List.filteri (fun i _ -> i >= 2) c.spk in
   match c.kind with
-  | "trkey" -> keyonly (List.filteri (fun i _ -> i >= 2) c.spk) s.wit
-  | "tr" when List.length s.wit = 1 -> keyonly (List.filteri (fun i _ -> i >= 2) c.spk) s.wit
-  | "wpkh" | "shwpkh" -> (match last_opt s.wit with Some k -> keyonly k (drop_last s.wit) | None -> None)
+  | "trkey" -> Some (None, outkey, s.wit)
+  | "tr" when List.length s.wit = 1 -> Some (None, outkey, s.wit)
+  | "wpkh" | "shwpkh" -> (match last_opt s.wit with Some k -> Some (None, k, drop_last s.wit) | None -> None)
   | "barepk" ->
     let n = List.length c.spk in
     let k = List.filteri (fun i _ -> i >= 1 && i < n - 1) c.spk in
-    (match ssig_stack s with Some st -> keyonly k (List.rev st) | None -> None)
-  | "pkh" -> (match ssig_stack s with Some (k :: st) -> keyonly k (List.rev st) | _ -> None)
+    (match ssig_stack s with Some st -> Some (None, k, List.rev st) | None -> None)
+  | "pkh" -> (match ssig_stack s with Some (k :: st) -> Some (None, k, List.rev st) | _ -> None)
   | _ ->
     (match s.ims with
      | Some d when d <> "?" ->
@@ -275,10 +271,108 @@ let model_run (c : case) (s : spend) : string option =
            | "sh" -> (match ssig_stack s with Some (_ :: st) -> Some (List.rev st) | _ -> None)
            | "bare" -> (match ssig_stack s with Some st -> Some (List.rev st) | None -> None)
            | _ -> None) in
-       (match items with
-        | Some items -> Some (outcome_str tap (interp e (keyenv_of tap) kp m (astack_of_items items)))
-        | None -> None)
+       (match items with Some items -> Some (Some m, [], items) | None -> None)
      | _ -> None)
+
+let impl_sigtab (s : spend) = List.filter (fun p -> not (List.mem p s.isign)) s.sigok @ s.isigx
+
+let model_run (c : case) (s : spend) : string option =
+  let tap = is_tapkind c.kind in
+  let e = mk_env c s (impl_sigtab s) in
+  let known = known_keys () in
+  let kp k = List.mem k known in
+  match model_inputs c s with
+  | Some (Some m, _, items) -> Some (outcome_str tap (interp e (keyenv_of tap) kp m (astack_of_items items)))
+  | Some (None, k, items) -> Some (outcome_str tap (interp_pk e k (astack_of_items items)))
+  | None -> None
+
+(* ---- the same case as a Coq term (Tables/InterpCasesGen.v), with the implementation's observation *)
+let cq_bytes (b : bytes) : string = "[" ^ String.concat ";" (List.map (fun x -> string_of_int (int_of_n x)) b) ^ "]"
+let cq_n (x : n) : string = string_of_int (int_of_n x)
+let rec cq_ms (m : ms) : string =
+  let un c x = "(" ^ c ^ " " ^ cq_ms x ^ ")" in
+  let bin c x y = "(" ^ c ^ " " ^ cq_ms x ^ " " ^ cq_ms y ^ ")" in
+  let keysl ks = "[" ^ String.concat ";" (List.map cq_n ks) ^ "]" in
+  match m with
+  | MTrue -> "MTrue" | MFalse -> "MFalse"
+  | MPkK k -> "(MPkK " ^ cq_n k ^ ")" | MPkH k -> "(MPkH " ^ cq_n k ^ ")"
+  | MRawPkH h -> "(MRawPkH " ^ cq_bytes h ^ ")"
+  | MAfter t -> "(MAfter " ^ cq_n t ^ ")" | MOlder t -> "(MOlder " ^ cq_n t ^ ")"
+  | MSha256 h -> "(MSha256 " ^ cq_bytes h ^ ")" | MHash256 h -> "(MHash256 " ^ cq_bytes h ^ ")"
+  | MRipemd160 h -> "(MRipemd160 " ^ cq_bytes h ^ ")" | MHash160 h -> "(MHash160 " ^ cq_bytes h ^ ")"
+  | MAlt x -> un "MAlt" x | MSwap x -> un "MSwap" x | MCheck x -> un "MCheck" x | MDupIf x -> un "MDupIf" x
+  | MVerify x -> un "MVerify" x | MNonZero x -> un "MNonZero" x | MZeroNotEqual x -> un "MZeroNotEqual" x
+  | MAndV (x, y) -> bin "MAndV" x y | MAndB (x, y) -> bin "MAndB" x y
+  | MAndOr (a, b, c) -> "(MAndOr " ^ cq_ms a ^ " " ^ cq_ms b ^ " " ^ cq_ms c ^ ")"
+  | MOrB (x, y) -> bin "MOrB" x y | MOrD (x, y) -> bin "MOrD" x y | MOrC (x, y) -> bin "MOrC" x y | MOrI (x, y) -> bin "MOrI" x y
+  | MThresh (k, xs) -> "(MThresh " ^ cq_n k ^ " [" ^ String.concat ";" (List.map cq_ms xs) ^ "])"
+  | MMulti (k, ks) -> "(MMulti " ^ cq_n k ^ " " ^ keysl ks ^ ")"
+  | MSortedMulti (k, ks) -> "(MSortedMulti " ^ cq_n k ^ " " ^ keysl ks ^ ")"
+  | MMultiA (k, ks) -> "(MMultiA " ^ cq_n k ^ " " ^ keysl ks ^ ")"
+  | MSortedMultiA (k, ks) -> "(MSortedMultiA " ^ cq_n k ^ " " ^ keysl ks ^ ")"
+
+let cq_err = function
+  | "stack_end" -> "EStackEnd" | "elem_push" -> "EElemPush" | "stack_bool" -> "EStackBool" | "verify" -> "EVerifyFailed"
+  | "pk_eval" -> "EPkEval" | "sig" -> "ESig" | "pkh_fail" -> "EPkHashFail" | "key_parse" -> "EPubkeyParse"
+  | "preimage_len" -> "EPreimageLen" | "abs_not_met" -> "EAbsNotMet" | "abs_invalid" -> "EAbsInvalid"
+  | "rel_not_met" -> "ERelNotMet" | "rel_disabled" -> "ERelDisabled" | "multi_insufficient" -> "EMultiInsufficient"
+  | "multi_missing_zero" -> "EMultiMissingZero" | "multi_eval" -> "EMultiEval"
+  | "could_not_evaluate" -> "ECouldNotEvaluate" | "script_sat" -> "EScriptSat"
+  | x -> failwith ("unknown class " ^ x)
+
+let cq_cons (x : string) : string =
+  let b h = cq_bytes (bytes_of_hex h) in
+  match String.split_on_char ':' x with
+  | ["pk"; k; s] -> "(CsPk " ^ b k ^ " " ^ b s ^ ")"
+  | ["pkh"; h; k; s] -> "(CsPkh " ^ b h ^ " " ^ b k ^ " " ^ b s ^ ")"
+  | ["sha256"; h; p] -> "(CsHash KSha256 " ^ b h ^ " " ^ b p ^ ")"
+  | ["hash256"; h; p] -> "(CsHash KHash256 " ^ b h ^ " " ^ b p ^ ")"
+  | ["ripemd160"; h; p] -> "(CsHash KRipemd160 " ^ b h ^ " " ^ b p ^ ")"
+  | ["hash160"; h; p] -> "(CsHash KHash160 " ^ b h ^ " " ^ b p ^ ")"
+  | ["older"; n] -> "(CsOlder " ^ n ^ ")"
+  | ["after"; n] -> "(CsAfter " ^ n ^ ")"
+  | _ -> failwith ("bad constraint " ^ x)
+
+let coq_case (c : case) (s : spend) : string option =
+  let tap = is_tapkind c.kind in
+  match model_inputs c s with
+  | None -> None
+  | Some (mo, k, items) ->
+    let expect =
+      let cs = "[" ^ String.concat ";" (List.map cq_cons s.cons) ^ "]" in
+      if s.verdict = "ok" then "(IAccept " ^ cs ^ ")"
+      else (match String.split_on_char ':' s.verdict with
+          | ["err"; "iter"; cl] -> "(IReject " ^ cq_err cl ^ " " ^ cs ^ ")"
+          | _ -> failwith "verdict") in
+    let kinds = [(KSha256, "sha256", "KSha256"); (KHash256, "hash256", "KHash256");
+                 (KRipemd160, "ripemd160", "KRipemd160"); (KHash160, "hash160", "KHash160")] in
+    let hashes = List.concat_map (fun it ->
+        List.filter_map (fun (_, nm, cn) ->
+            let o = hash_lookup c s nm it in
+            if o = sentinel then None else Some ("(" ^ cn ^ ",(" ^ cq_bytes it ^ "," ^ cq_bytes o ^ "))")) kinds) items in
+    let ke = keyenv_of tap in
+    let rec mkeys (m : ms) : int list =
+      match m with
+      | MPkK k | MPkH k -> [int_of_n k]
+      | MAlt x | MSwap x | MCheck x | MDupIf x | MVerify x | MNonZero x | MZeroNotEqual x -> mkeys x
+      | MAndV (x, y) | MAndB (x, y) | MOrB (x, y) | MOrD (x, y) | MOrC (x, y) | MOrI (x, y) -> mkeys x @ mkeys y
+      | MAndOr (a, b, c) -> mkeys a @ mkeys b @ mkeys c
+      | MThresh (_, xs) -> List.concat_map mkeys xs
+      | MMulti (_, ks) | MSortedMulti (_, ks) | MMultiA (_, ks) | MSortedMultiA (_, ks) -> List.map int_of_n ks
+      | _ -> [] in
+    let idx = List.sort_uniq compare (match mo with Some m -> mkeys m | None -> []) in
+    let kbl = String.concat ";" (List.map (fun i -> "(" ^ string_of_int i ^ "," ^ cq_bytes (ke.kb (n_of_int i)) ^ ")") idx) in
+    let khl = String.concat ";" (List.map (fun i -> "(" ^ string_of_int i ^ "," ^ cq_bytes (ke.kh (n_of_int i)) ^ ")") idx) in
+    let sigl = String.concat ";" (List.map (fun (a, b) -> "(" ^ cq_bytes a ^ "," ^ cq_bytes b ^ ")") (impl_sigtab s)) in
+    let kpl = String.concat ";" (List.map cq_bytes (List.filter (fun k -> List.mem k items) (known_keys ()))) in
+    Some (Printf.sprintf "mkIC %s %s [%s] %d %d [%s] [%s] [%s] [%s] [%s] %s"
+            (match mo with Some m -> "(Some " ^ cq_ms m ^ ")" | None -> "None")
+            (cq_bytes k) (String.concat ";" (List.map cq_bytes items)) s.lock s.seq kbl khl sigl
+            (String.concat ";" hashes) kpl expect)
+
+let coq_max = (try int_of_string (Sys.getenv "VERIF_COQ_SAMPLES") with _ -> 0)
+let coq_stride = (try int_of_string (Sys.getenv "VERIF_COQ_STRIDE") with _ -> 53)
+let coq_emitted = ref 0
 
 let describe (c : case) (s : spend) =
   Printf.sprintf "case=%s sid=%s kind=%s sane=%b base=%s mk=%s txv=%d lock=%d seq=%d desc=%s wit=%s ssig=%s spk=%s"
@@ -374,6 +468,11 @@ let handle_spend (c : case) (s : spend) =
     match (try model_run c s with Parse t -> Some ("parse-error " ^ t)) with
     | Some m ->
       let impl = vclass ^ " | " ^ String.concat " " s.cons in
+      if !coq_emitted < coq_max && s.isigx = [] && (get "model_eq" + get "model_diff") mod coq_stride = 0 then begin
+        match (try coq_case c s with _ -> None) with
+        | Some t -> incr coq_emitted; Printf.printf "COQCASE %s\n" t
+        | None -> ()
+      end;
       if m = impl then inc "model_eq"
       else begin
         inc "model_diff";
